@@ -275,8 +275,11 @@ class CodedInputStream {
   void ReadFixedIntegerSlow(T& value) {
     if (buffer_ptr_ == buffer_end_ptr_) {
       FillBuffer();
-      ReadFixedIntegerFastFromArray(value, buffer_ptr_);
-      return;
+      // the refill may have obtained fewer bytes than the value needs
+      if (RemainingBufferSpace() >= sizeof(T)) {
+        ReadFixedIntegerFastFromArray(value, buffer_ptr_);
+        return;
+      }
     }
 
     uint8_t bytes[sizeof(T)];
@@ -303,8 +306,11 @@ class CodedInputStream {
   void ReadVarIntegerSlow(T& value) {
     if (buffer_ptr_ == buffer_end_ptr_) {
       FillBuffer();
-      ReadVarIntegerFastFromArray(value, buffer_ptr_);
-      return;
+      // the refill may have obtained fewer bytes than the longest encoding needs
+      if (RemainingBufferSpace() >= static_cast<size_t>(MAX_VARINT64_BYTES)) {
+        ReadVarIntegerFastFromArray(value, buffer_ptr_);
+        return;
+      }
     }
 
     value = 0;
